@@ -70,6 +70,25 @@ pub fn cli(args: &[String]) -> i32 {
             }
             cmd_check(&prop, &tier)
         }
+        Some("seams") => {
+            let cur = seam_lines(&repo_dir());
+            if args.iter().any(|a| a == "--write") {
+                std::fs::write("seams.json", serde_json::to_string_pretty(&cur).unwrap()).unwrap();
+                println!("seams.json written ({} seam halves)", cur.len());
+                0
+            } else {
+                match seam_drift() {
+                    Ok(()) => {
+                        println!("{} shipped seam halves, all as recorded", cur.len());
+                        0
+                    }
+                    Err(d) => {
+                        println!("SEAM-DRIFT {}", d);
+                        2
+                    }
+                }
+            }
+        }
         Some("replay") => {
             let Some(path) = args.get(1) else {
                 eprintln!("usage: dst replay <file>");
@@ -207,7 +226,64 @@ fn cmd_replay(path: &str, dump: bool, fresh: bool) -> i32 {
     }
 }
 
+/// The shipped halves of the simulator's seams: every item under
+/// `#[cfg(not(transparencies_stretto_verif))]` in the library.  The simulator stage never compiles
+/// them - it runs the other half - so a change there is invisible to it.
+fn seam_lines(repo: &std::path::Path) -> Vec<String> {
+    fn walk(dir: &std::path::Path, base: &std::path::Path, out: &mut Vec<String>) {
+        let Ok(rd) = std::fs::read_dir(dir) else { return };
+        let mut es: Vec<_> = rd.flatten().map(|e| e.path()).collect();
+        es.sort();
+        for p in es {
+            if p.is_dir() {
+                walk(&p, base, out);
+            } else if p.extension().map_or(false, |x| x == "rs") {
+                let Ok(txt) = std::fs::read_to_string(&p) else { continue };
+                let lines: Vec<&str> = txt.lines().collect();
+                for (i, l) in lines.iter().enumerate() {
+                    if l.trim() == "#[cfg(not(transparencies_stretto_verif))]" {
+                        let next = lines.get(i + 1).map(|x| x.trim()).unwrap_or("");
+                        out.push(format!("{}: {}", p.strip_prefix(base).unwrap_or(&p).display(), next));
+                    }
+                }
+            }
+        }
+    }
+    let mut out = Vec::new();
+    walk(&repo.join("src"), repo, &mut out);
+    out
+}
+
+fn repo_dir() -> std::path::PathBuf {
+    // the checkout the shadow manifest points at
+    let txt = std::fs::read_to_string("shadow/Cargo.toml").unwrap_or_default();
+    for l in txt.lines() {
+        if let Some(rest) = l.trim().strip_prefix("path = \"") {
+            if let Some(p) = rest.strip_suffix("/src/lib.rs\"") {
+                return std::path::PathBuf::from(p);
+            }
+        }
+    }
+    std::path::PathBuf::from("/repo")
+}
+
+/// Err(description) if the shipped half of a seam differs from the recorded one.
+fn seam_drift() -> Result<(), String> {
+    let Ok(rec) = std::fs::read_to_string("seams.json") else { return Ok(()) };
+    let Ok(rec) = serde_json::from_str::<Vec<String>>(&rec) else { return Ok(()) };
+    let cur = seam_lines(&repo_dir());
+    if cur == rec {
+        return Ok(());
+    }
+    let changed: Vec<&String> = cur.iter().filter(|l| !rec.contains(l)).chain(rec.iter().filter(|l| !cur.contains(l))).collect();
+    Err(format!("{:?}", changed))
+}
+
 fn cmd_check(prop: &str, tier: &str) -> i32 {
+    if let Err(d) = seam_drift() {
+        eprintln!("HARNESS-ERROR: the shipped half of a simulator seam has changed ({}): the simulator stage compiles the other half and no longer runs the code that ships there, so this check cannot decide (regenerate seams.json with `./dst seams --write` once the hooks have been brought in line)", d);
+        return 2;
+    }
     let t0 = std::time::Instant::now();
     crate::gen::THOROUGH.store(tier == "thorough", std::sync::atomic::Ordering::SeqCst);
     let seed = base_seed();
